@@ -830,6 +830,15 @@ def _keyed_emit(F, R, co, nm):
             is_some = D.is_variant(p.ret, "std::option::Option", "Some")
             is_none = D.is_variant(p.ret, "std::option::Option", "None")
             n_none += 1 if is_none else 0
+            if is_none:
+                # "not finished yet" may only be answered after asking the finished cell: a return before that (e.g. right after
+                # forwarding Started) never forwards the Finished of an entity whose bracket events were all queued already
+                tnone = bool(tk) and _outcome(p, ("call", tk[0][2][1], tk[0][2][2], tk[0][2][4])) == "None"
+                curs = [x for x in acts if x[1] == "current"]
+                nothing_queued = not st and not ch and bool(curs) and _outcome(p, ("call", curs[0][2][1], curs[0][2][2], curs[0][2][4])) == "None"
+                R.check(tnone or nothing_queued, f"emit/{nm}/none-only-after-asking-state", co, "returns None only after take_to_emit() answered None",
+                        f"the {nm} emitter returns None (= keep me) on a path that did not ask take_to_emit(): a {nm[:-1] if nm.endswith('s') else nm} that is already finished when its turn comes "
+                        "never gets its Finished forwarded and is dropped with everything queued behind it")
             R.check((is_some and bool(fi)) or (is_none and not fi), f"emit/{nm}/remove-me-after-finished", co, "returns Some(key) exactly when it forwarded Finished",
                     f"the {nm} emitter returns {'Some(key) (= remove me)' if is_some else 'None'} on a path that {'did not forward' if is_some else 'forwarded'} Finished: its queued events are discarded / it is never removed")
     R.check(n_started >= 1 and n_finished >= 1 and n_none >= 1 and n_loop >= 1, f"emit/{nm}/shape", co, "Started, children, Finished, None paths all exist",
